@@ -9,28 +9,72 @@ TECH = "deterministic simulation with fault injection"
 
 # id -> (built?, technique detail, level text, level note, design section)
 CHECKS = {
-    "C01": (False, "", "", "", "4/C01"),
-    "C02": (False, "", "", "", "4/C02"),
+    "C01": (True,
+            TECH + ": seeded histories of type-constructor requests over a simulated heap whose placement policy decides the address order of unification keys; normalised-key map as reference model; every key re-requested at the end; injected bad_alloc",
+            "Seeded search over request histories, heap layouts and allocation-failure placements against a normalised-key map (same key <=> same node, within one constructor), with creation-time reading of each node. Evidence, not proof.",
+            "Trusted: the reference model and observer in /verif/model (expectations are built from operation inputs only), AddressSanitizer/UBSan, the simulated allocator. Sampling, not enumeration: a clean batch means no counterexample among the runs explored.",
+            "4/C01"),
+    "C02": (True,
+            TECH + ": every factory driven from seeded histories on the evolved graph; creation-time reading of each result against an expectation built from the inputs (operation-by-operation model check of every simulated run)",
+            "Every callable factory is exercised (seed-independent prologue plus seeded search) and each result is read back through ipr:: interface classes only and compared with the expectation built from the operation's inputs. No schedule or fault matters for this property on the current code; that is said in DESIGN.md. Evidence, not proof.",
+            "Trusted: the reference model and observer in /verif/model (expectations are built from operation inputs only), AddressSanitizer/UBSan, the simulated allocator. Sampling, not enumeration: a clean batch means no counterexample among the runs explored.",
+            "4/C02"),
     "C03": (True,
             TECH + ": seeded interning histories on coexisting pools over a simulated heap (placement policies, injected bad_alloc), byte-map reference model, re-read of all earlier strings",
             "Seeded search over interning histories, heap layouts and allocation-failure placements against a byte-string map model; every run re-reads all earlier strings with arena red zones poisoned. Evidence, not proof: a clean batch means no counterexample among the runs explored.",
             "Trusted: the harness's word generator and map model (a few hundred lines), AddressSanitizer/UBSan, the simulated allocator. The pool-capacity constant is mirrored for targeting only.",
             "4/C03"),
-    "C04": (False, "", "", "", "4/C04"),
-    "C05": (False, "", "", "", "4/C05"),
-    "C07": (False, "", "", "", "4/C07"),
+    "C04": (True,
+            TECH + ": seeded histories of name/atom constructors incl. every reserved spelling, address-ordered keys under simulated heap policies; key map, spelling->Identifier map and pairwise value-equality oracle",
+            "Seeded search over request histories and heap layouts against a normalised-key map, a one-Identifier-per-spelling map fed with every Identifier reachable through the Lexicon, and a pairwise spelling oracle for ==. Evidence, not proof.",
+            "Trusted: the reference model and observer in /verif/model (expectations are built from operation inputs only), AddressSanitizer/UBSan, the simulated allocator. Sampling, not enumeration: a clean batch means no counterexample among the runs explored.",
+            "4/C04"),
+    "C05": (True,
+            TECH + ": full workload histories with re-observation of every earlier object after every step, freed arena blocks kept poisoned, four placement policies, injected bad_alloc",
+            "Seeded search over histories of all factories, member additions and setters; after every step every previously returned object is re-read at its recorded address and compared with its model record; generative constructors must return fresh nodes. Evidence, not proof.",
+            "Trusted: the reference model and observer in /verif/model (expectations are built from operation inputs only), AddressSanitizer/UBSan, the simulated allocator. Sampling, not enumeration: a clean batch means no counterexample among the runs explored.",
+            "4/C05"),
+    "C07": (True,
+            TECH + ": seeded declaration histories with heavy redeclaration across many scopes; overload tables keyed by name/type addresses under simulated heap policies; scope model checked after every step; injected bad_alloc",
+            "Seeded search over declaration histories and heap layouts against a vector+map scope model (entry order, product type, lookup, first-of-set, master, decl-set, homogeneous scopes). Evidence, not proof.",
+            "Trusted: the reference model and observer in /verif/model (expectations are built from operation inputs only), AddressSanitizer/UBSan, the simulated allocator. Sampling, not enumeration: a clean batch means no counterexample among the runs explored.",
+            "4/C07"),
     "C08": (True,
             TECH + ": seeded insertion histories on both tree flavours with address comparators decided by the simulated heap's placement policy, injected bad_alloc in insert, set model + red-black shape checker after every step",
             "Seeded search over insertion histories (plus a fixed prologue of all permutations of up to 7 keys and all duplicate-bearing sequences up to length 6 over 4 letters), key orders decided by the simulated heap, allocation failure injected into insert; the shape checker and a set model are evaluated after every insertion. Evidence, not proof.",
             "Trusted: the shape checker and set model in props/c08.cxx, the comparators used (total orders), sanitizers, the simulated allocator. Tree internals are read through classes derived from the protected core.",
             "4/C08"),
-    "C09": (False, "", "", "", "4/C09"),
-    "C11": (False, "", "", "", "4/C11"),
-    "C12": (False, "", "", "", "4/C12"),
+    "C09": (True,
+            TECH + ": creation-time and every-step observation of type() against a typing table (kind-fixed, borrowed-as-agreement, given) on seeded histories with growing sequences",
+            "Seeded search over histories; each node's type() is compared with what its kind prescribes, borrowed types are checked as agreement with their source at every step, and product types of scopes / parameter lists / expression lists are re-checked after every addition. Evidence, not proof.",
+            "Trusted: the reference model and observer in /verif/model (expectations are built from operation inputs only), AddressSanitizer/UBSan, the simulated allocator. Sampling, not enumeration: a clean batch means no counterexample among the runs explored.",
+            "4/C09"),
+    "C11": (True,
+            TECH + ": seeded splittings of qualifier sets into successive requests (all 343 triples in the prologue), interleaved with other requests and noise, against the (union, innermost type) key",
+            "Seeded search plus a fixed prologue of all triples of successive requests: every splitting must end at the node keyed by the union of qualifiers over the unqualified type; empty requests must be refused. Evidence, not proof.",
+            "Trusted: the reference model and observer in /verif/model (expectations are built from operation inputs only), AddressSanitizer/UBSan, the simulated allocator. Sampling, not enumeration: a clean batch means no counterexample among the runs explored.",
+            "4/C11"),
+    "C12": (True,
+            TECH + ": seeded nesting histories of regions and region-owning constructs in random creation order; parent/owner/depth model checked after every step",
+            "Seeded search over nesting histories against a parent-link model: enclosing, walk to the unit's root in exactly the modelled number of steps, owners, handler regions, positions and levels in homogeneous scopes. Evidence, not proof.",
+            "Trusted: the reference model and observer in /verif/model (expectations are built from operation inputs only), AddressSanitizer/UBSan, the simulated allocator. Sampling, not enumeration: a clean batch means no counterexample among the runs explored.",
+            "4/C12"),
     "C13": (False, "", "", "", "4/C13"),
-    "C14": (False, "", "", "", "4/C14"),
-    "C15": (False, "", "", "", "4/C15"),
-    "C16": (False, "", "", "", "4/C16"),
+    "C14": (True,
+            TECH + ": seeded histories leaving nodes partially built, followed by accessor sweeps with out-of-range probing of every sequence, under ASan+UBSan",
+            "Seeded search over partially built states; every accessor of every reachable node and every sequence index from 0 to beyond size() must return a touchable result or throw std::logic_error; sanitizer reports fail the run. Evidence, not proof.",
+            "Trusted: the reference model and observer in /verif/model (expectations are built from operation inputs only), AddressSanitizer/UBSan, the simulated allocator. Sampling, not enumeration: a clean batch means no counterexample among the runs explored.",
+            "4/C14"),
+    "C15": (True,
+            TECH + ": every-step comparison of each derived operation with its definition on seeded histories whose containers grow from empty to many; pairwise equality oracle",
+            "Seeded search; derived operations and their defining primitives are evaluated on the same node at every step; equalities are checked on all pairs of the run's pools. Evidence, not proof.",
+            "Trusted: the reference model and observer in /verif/model (expectations are built from operation inputs only), AddressSanitizer/UBSan, the simulated allocator. Sampling, not enumeration: a clean batch means no counterexample among the runs explored.",
+            "4/C15"),
+    "C16": (True,
+            TECH + ": seeded binding/rebinding histories on substitutions whose internal map is keyed by parameter addresses (decided by the simulated heap), queried with every parameter after every step",
+            "Seeded search over binding histories and heap layouts against a map model, queried inside and outside each domain after every step. Evidence, not proof.",
+            "Trusted: the reference model and observer in /verif/model (expectations are built from operation inputs only), AddressSanitizer/UBSan, the simulated allocator. Sampling, not enumeration: a clean batch means no counterexample among the runs explored.",
+            "4/C16"),
     "C17": (False, "", "", "", "4/C17"),
     "C18": (False, "", "", "", "4/C18"),
     "C19": (False, "", "", "", "4/C19"),
